@@ -3,6 +3,7 @@ package props
 import (
 	"fmt"
 	"go/token"
+	"go/types"
 	"regexp"
 	"sort"
 	"strings"
@@ -399,7 +400,87 @@ func decoderRejections(p *core.Prog, r *core.Run, dec *ssa.Function, rule string
 	}
 }
 
+// c13DecoderKeys: in the HTTPS decoder every field of the record is set from
+// the parameter with that field's own key only (key 1 alpn, 2 no-default-alpn,
+// 3 port, 4 ipv4hint, 5 ech, 6 ipv6hint): a record never comes out with a
+// field another parameter decided.
+func c13DecoderKeys(p *core.Prog, r *core.Run, dht *ssa.Function, rule string) {
+	want := map[string]string{"ALPN": "1", "NoDefaultALPN": "2", "Port": "3", "IPv4Hint": "4", "ECH": "5", "IPv6Hint": "6"}
+	n := 0
+	check := func(in ssa.Instruction, fld string, b *ssa.BasicBlock) {
+		k, ok := want[fld]
+		if !ok {
+			return
+		}
+		n++
+		under := ""
+		for _, f := range p.Facts(b) {
+			if f.Op == "==" && f.R != nil && f.R.Op == "const" && (f.L.Op == "out" || f.L.Op == "cell" || f.L.Op == "phi") && strings.Contains(f.L.String(), "ReadUint16") {
+				under = f.R.Name
+			}
+		}
+		r.Check(rule, fmt.Sprintf("decoder:%s#%d", fld, n), under == k, p.InstrPos(in), "HTTPS.%s is set from the parameter with key %s only (here under key %q)", fld, k, under)
+		// a list of the record is grown from itself (or from nothing): records
+		// of one message do not share storage
+		if st, ok := in.(*ssa.Store); ok && (fld == "ALPN" || fld == "IPv4Hint" || fld == "IPv6Hint") {
+			var leaves []*core.Expr
+			var expand func(e *core.Expr, depth int)
+			expand = func(e *core.Expr, depth int) {
+				if e == nil || depth > 8 {
+					return
+				}
+				switch {
+				case e.Op == "slice" || e.Op == "conv":
+					expand(e.Args[0], depth+1)
+				case e.Op == "phi" || e.Op == "cell":
+					for _, a := range e.Args {
+						expand(a, depth+1)
+					}
+				case e.Op == "call" && e.Name == "append" && len(e.Args) > 0:
+					expand(e.Args[0], depth+1)
+				default:
+					leaves = append(leaves, e)
+				}
+			}
+			expand(p.X(st.Val), 0)
+			foreign := ""
+			for _, base := range leaves {
+				own := base.Op == "field" && base.Name == fld && base.Args[0].Op == "new" || base.Op == "const" || base.Op == "new"
+				if !own {
+					foreign = short(base)
+				}
+			}
+			r.Check(rule, fmt.Sprintf("decoder:%s-storage#%d", fld, n), foreign == "", p.InstrPos(in), "HTTPS.%s grows from the record's own list or from nothing (it comes from %s)", fld, foreign)
+		}
+	}
+	for _, l := range core.Closures(dht) {
+		for _, b := range l.Blocks {
+			for _, in := range b.Instrs {
+				switch x := in.(type) {
+				case *ssa.Store:
+					if fa, ok := x.Addr.(*ssa.FieldAddr); ok && fieldVar(fa) != nil {
+						if nt, ok := deref2(fa.X.Type()).(*types.Named); ok && nt.Obj().Name() == "HTTPS" {
+							check(x, fieldVar(fa).Name(), b)
+						}
+					}
+				case *ssa.Call:
+					// a read straight into the field: value.ReadUint16(&result.Port)
+					for _, a := range x.Call.Args {
+						if fa, ok := a.(*ssa.FieldAddr); ok && fieldVar(fa) != nil {
+							if nt, ok := deref2(fa.X.Type()).(*types.Named); ok && nt.Obj().Name() == "HTTPS" {
+								check(x, fieldVar(fa).Name(), b)
+							}
+						}
+					}
+				}
+			}
+		}
+	}
+	r.Check(rule, "decoder:fields", n >= 6, p.Pos(dht.Pos()), "stores to the parameter fields of the decoded HTTPS record examined: %d", n)
+}
+
 func c13RData(p *core.Prog, r *core.Run, rb, drr, dht, dopt *ssa.Function, rbS string) {
+	c13DecoderKeys(p, r, dht, "C13.RDATA")
 	lits := core.Closures(rb)
 	decoderRejections(p, r, dht, "C13.RDATA")
 	if sv := p.Func(DNS, "(decoder).svcb"); sv != nil {
